@@ -81,7 +81,9 @@ Inductive oop := OExport | OExportNoBn | OSummary | OCost | OGetCost (n : string
 Definition is_observer (o : oop) : bool :=
   match o with OExport | OExportNoBn | OSummary | OCost | OGetCost _ => true | _ => false end.
 
-Inductive metric := MA | MB.
+(* the four cost models in use: the single specifications A and B, the entries "a" and "b" of the dictionary (which need not be
+   the same models as A and B: the harness uses params / ops_no_bias / {a: params_no_bias, b: ops}) *)
+Inductive metric := MA | MB | MDa | MDb.
 Inductive obs :=
 | ONet (pv bv : Z)                                  (* exported network: architecture and weights are functions of pv, bv *)
 | OSum (pv : Z)                                     (* summary computed from the parameters *)
@@ -187,7 +189,7 @@ Definition cost (c : config) (s : state) : state * obs :=
   end.
 Definition get_cost (c : config) (s : state) (n : string) : state * obs :=
   match spec s with
-  | DictAB => if String.eqb n "a" then cost_of c s MA else if String.eqb n "b" then cost_of c s MB
+  | DictAB => if String.eqb n "a" then cost_of c s MDa else if String.eqb n "b" then cost_of c s MDb
               else (s, OErr)   (* KeyError *)
   | _ => (s, OErr)             (* AssertionError: not a dictionary *)
   end.
